@@ -1058,6 +1058,10 @@ private:
         continue;
       s->closed = true;
       delEpoll(s->fd);
+      // Drop the fd tag as closeNow does: the Session is freed below, and after
+      // a restart the fd number is reused - a stale tag would route the new
+      // socket's events to the freed Session (emplace keeps an existing key).
+      _fdTags.erase(s->fd);
       // SSL_shutdown before close(fd) — same ordering as closeNow
       if (s->ssl)
       {
